@@ -78,6 +78,13 @@ func init() {
 			st.setObj(id, &Object{Kind: OMem, Cells: cells, Site: "hash.Sum", ep: st.ep})
 			return Slice{Obj: id, Len: len(cells), Cap: len(cells)}
 		}
+		I[vrtPath+".Reach"] = func(e *Engine, st *State, th *Thread, fn *ssa.Function, a []Value, in *ssa.Call) Value {
+			l := constStr(a[0], "reach label")
+			e.mu.Lock()
+			e.Reached[l] = true
+			e.mu.Unlock()
+			return nil
+		}
 		I["bytes.Equal"] = func(e *Engine, st *State, th *Thread, fn *ssa.Function, a []Value, in *ssa.Call) Value {
 			x, y := e.pick(st, a[0]).(Slice), e.pick(st, a[1]).(Slice)
 			if x.Len != y.Len {
